@@ -467,15 +467,17 @@ PERTURBATIONS = {
     "inflow-moved-between-steps": [("inflow", 0, 10), ("inflow", 2, -10)],
     "outflow-moved-between-steps": [("outflow", 1, 10), ("outflow", 2, -10)],
     "last-stock-value": [("stock", -1, -10)],
+    "stock-value-by-4-on-a-ten-year-grid": [("stock", -1, 4)],      # beyond the threshold of 1, but below the interval length
 }
 
 
 def case_balance_check(prog, cfg):
     """C03: check_stock_balance accepts the computed stock (symbolic values: the balance is identically zero) and rejects it
     after its arrays were perturbed by 10 (threshold 1), also when the perturbation's errors cancel over time"""
-    sw = SW(prog, cfg["n_t"], cfg["labels"], grid="unit")
+    grid = "ten-year" if "ten-year" in cfg["perturbation"] else "unit"
+    sw = SW(prog, cfg["n_t"], cfg["labels"], grid=grid)
     cls_name = cfg["cls"]
-    case = SCase("balance-check", "Stock.check_stock_balance", dict(cfg_desc(cfg), grid="unit", perturbation=cfg["perturbation"]))
+    case = SCase("balance-check", "Stock.check_stock_balance", dict(cfg_desc(cfg), grid=grid, perturbation=cfg["perturbation"]))
 
     def go():
         if cls_name == "SimpleFlowDrivenStock":
@@ -658,7 +660,10 @@ def case_history(prog, cfg, cls_name, hist):
                     continue
                 prms[nm], _ = sw.param(nm, cfg.get("over2", cfg["over"]) if step == "P" else cfg["over"], v,
                                        sign=("neg" if (step == "N" and nm in ("mean", "weibull_shape")) else "pos"))
-            kind, r = run_guarded(lambda: sw.it.call_method(lm, "set_prms", **prms))
+            if cfg.get("positional"):
+                kind, r = run_guarded(lambda: sw.it.call_method(lm, "set_prms", *[prms[nm] for nm in DISTS[dist]]))
+            else:
+                kind, r = run_guarded(lambda: sw.it.call_method(lm, "set_prms", **prms))
             if kind != "ok":
                 case.v("recompute", False, f"step {i} set_prms ended with {kind}: {r}", f"{dist}.set_prms")
                 return case
@@ -727,7 +732,7 @@ def table_configs(tier):
                 if tier == "quick" and over not in ("number", "all"):
                     quads = [(1, "middle"), (2, "middle")]
                 for n_pts, ia in quads:
-                    vias = ("set_prms", "__init__", "set_prms-twice") if over in ("number", "all") and n_pts == 1 and ia == "middle" else ("set_prms",)
+                    vias = ("set_prms", "__init__", "set_prms-twice", "set_prms-positional") if over in ("number", "all") and n_pts == 1 and ia == "middle" else ("set_prms",)
                     if over == "number" and (n_pts, ia) in ((1, "start"), (1, "end"), (2, "middle")):
                         vias += ("attributes",)
                     for via in vias:
